@@ -593,7 +593,7 @@ def fam_drain(tier, outdir):
               "Inputs": "{99}", "ReadSizes": "{}", "WriteSizes": "{}", "DlOpts": "{0, 1}", "Mode": '"drain"',
               "SinkFails": "{1, 3}", "NbOpts": "{TRUE, FALSE}"}
     if tier == "thorough":
-        consts.update({"MaxOut": 4, "MaxTime": 2, "SinkFails": "{1, 2, 3}", "DlOpts": "{0, 1, 2}"})   # (5 calls: does not finish in an hour since interrupts are modelled)
+        consts.update({"SinkFails": "{1, 2, 3}"})   # (5 calls, 4 bytes, 2 ticks: 10-20 M scripts, hours, since interrupts are modelled; thorough = every script replayed)
     cfg = os.path.join(outdir, "MC_Drain.cfg")
     write_cfg(cfg, "Spec", consts, ["TypeOK", "LifeChild", "Conservation"], export_stride=5 if tier == "quick" else 1)
     return run_tlc_export("drain", "MC_Stream", cfg, outdir, tier, asan_stride=8, tlc_workers=10,
